@@ -11,3 +11,4 @@ import DvidModel.Props.C03
 import DvidModel.Props.C02
 import DvidModel.Props.C09
 import DvidModel.Props.C10
+import DvidModel.Props.C19
